@@ -13,24 +13,30 @@ func (i *Snapshot) VerifEpoch() uint64 {
 
 // VerifSegmentInfo describes one segment of a snapshot.
 type VerifSegmentInfo struct {
-	ID        uint64
-	Persisted bool
-	Full      uint64
-	Deleted   uint64
-	Creator   string
+	ID          uint64
+	Persisted   bool
+	Full        uint64
+	Deleted     uint64
+	Creator     string
+	Type        string
+	Version     uint32
+	DeletedDocs []uint32
 }
 
 // VerifSegmentInfos lists the segments of this snapshot in order.
 func (i *Snapshot) VerifSegmentInfos() []VerifSegmentInfo {
 	rv := make([]VerifSegmentInfo, 0, len(i.segment))
 	for _, s := range i.segment {
-		info := VerifSegmentInfo{ID: s.id, Creator: s.creator}
+		info := VerifSegmentInfo{ID: s.id, Creator: s.creator, Type: s.segmentType, Version: s.segmentVersion}
 		if s.segment != nil {
 			info.Persisted = s.segment.Persisted()
 			info.Full = s.segment.Count()
+			info.Type = s.segment.Type()
+			info.Version = s.segment.Version()
 		}
 		if s.deleted != nil {
 			info.Deleted = s.deleted.GetCardinality()
+			info.DeletedDocs = s.deleted.ToArray()
 		}
 		rv = append(rv, info)
 	}
